@@ -161,7 +161,12 @@ def build(variant):
         if os.path.exists(os.path.join(d, "ok")):
             return d
         for old in glob.glob(os.path.join(BUILD, variant + "-*")):
-            shutil.rmtree(old, ignore_errors=True)
+            # stale builds are removed, but not ones young enough to be in use by a check that is still running
+            try:
+                if time.time() - os.path.getmtime(old) > 3 * 3600 or old.endswith(".tmp"):
+                    shutil.rmtree(old, ignore_errors=True)
+            except OSError:
+                pass
         tmp = d + ".tmp"
         shutil.rmtree(tmp, ignore_errors=True)
         os.makedirs(tmp)
